@@ -82,7 +82,20 @@ fn regex_heavy_case(t: &mut Tape) -> FullCase {
 }
 
 pub fn decode_sched(t: &mut Tape) -> SchedCase {
-    let base = regex_heavy_case(t);
+    let mut base = regex_heavy_case(t);
+    if t.chance(1, 3) {
+        // many same-shape tagged regex rules in a few buckets: every tag switch frees and
+        // re-allocates dozens of them, and one query compiles (and caches) many regexes
+        let m = 40 + t.pick(260);
+        let words = ["ads", "banner", "track"];
+        for i in 0..m {
+            base.rules.push(format!("/{}^*q{}${}tag={}", words[i % 3], i, if i % 7 == 0 { "important," } else { "" }, gen::TAGS[(i / 3) % gen::TAGS.len()]));
+        }
+        for _ in 0..(6 + t.pick(10)) {
+            let i = t.pick(m);
+            base.reqs.push(ReqSpec { url: format!("https://example.com/{}/zz/q{}", words[i % 3], i), source: "https://site.org/".into(), rtype: "script".into() });
+        }
+    }
     let nq = base.reqs.len() + base.pages.len();
     let nthreads = 2 + t.pick(15);
     let mut threads = vec![];
@@ -331,7 +344,7 @@ fn sync_bin() -> String {
 }
 
 pub fn check(ctx: &mut Ctx) {
-    ctx.rule = "schedules: one shared Engine in the build without unsync-regex-caching (regex-heavy list + cosmetic rules + resources; half of the cases with discard policy (1 ns, 0) so every query discards and recompiles, half with the default policy so compiled regexes stay cached across tag switches), 2-16 persistent threads x 20-200 mixed queries (network, csp, cosmetic, class/id) in generated per-thread orders with generated spin/yield points, in 1-5 rounds separated by barriers; between rounds the controller switches the enabled tags through a write lock (re-allocating the same-shape tagged regex rules); request hosts contain the rules' host text at several label-aligned offsets; every answer is compared with the answer of a fresh single-thread engine for that round's tags, computed under the default AND the discard-everything policy (they must agree); a watchdog reports a deadlock only if no query completes anywhere for 60 s; a panic in any thread (incl. lock poisoning) is a failure. transcript: the same seeded stream of cases is answered and serialized by the single-thread and the thread-safe build; the digests must be equal. Non-trivial schedule = at least two threads were inside (or waiting to enter) a query at the same time.".into();
+    ctx.rule = "schedules: one shared Engine in the build without unsync-regex-caching (regex-heavy list + cosmetic rules + resources, 1 case in 3 with 40-299 extra same-shape tagged regex rules in three buckets; half of the cases with discard policy (1 ns, 0) so every query discards and recompiles, half with the default policy so compiled regexes stay cached across tag switches), 2-16 persistent threads x 20-200 mixed queries (network, csp, cosmetic, class/id) in generated per-thread orders with generated spin/yield points, in 1-5 rounds separated by barriers; between rounds the controller switches the enabled tags through a write lock (re-allocating the same-shape tagged regex rules); request hosts contain the rules' host text at several label-aligned offsets; every answer is compared with the answer of a fresh single-thread engine for that round's tags, computed under the default AND the discard-everything policy (they must agree); a watchdog reports a deadlock only if no query completes anywhere for 60 s; a panic in any thread (incl. lock poisoning) is a failure. transcript: the same seeded stream of cases is answered and serialized by the single-thread and the thread-safe build; the digests must be equal. Non-trivial schedule = at least two threads were inside (or waiting to enter) a query at the same time.".into();
     ctx.assumptions = vec![
         "real threads sample interleavings; with the whole query under one mutex the schedule space collapses to query orderings, which are what is generated".into(),
         "deadlock is detected by absence of progress, never by a time budget".into(),
